@@ -62,7 +62,10 @@ pub struct ContentStream {
 impl ContentStream {
     /// Create a new content stream
     pub fn new(content_key: ContentKey, total_size: Option<u64>, config: StreamingConfig) -> Self {
-        let total_chunks = total_size.map(|size| size.div_ceil(config.chunk_size as u64) as u32);
+        // A chunk size of 0 is invalid (process_stream rejects it); count in
+        // 1-byte chunks rather than dividing by zero.
+        let chunk_size = config.chunk_size.max(1) as u64;
+        let total_chunks = total_size.map(|size| size.div_ceil(chunk_size) as u32);
 
         let validated_chunks = match total_chunks {
             Some(chunks) => vec![false; chunks as usize],
@@ -202,6 +205,13 @@ where
     where
         R: AsyncRead + Send + Unpin,
     {
+        if self.config.chunk_size == 0 {
+            // A 0-byte read buffer makes every read look like the end of the stream
+            return Err(NgdpCacheError::StreamProcessingError(
+                "chunk_size must be greater than 0".to_string(),
+            ));
+        }
+
         let mut chunks = Vec::new();
         let mut stream = ContentStream::new(content_key, expected_size, self.config.clone());
         loop {
